@@ -22,6 +22,11 @@
 (*   m      the cells written individually since ( <<row, key>> -> token ), *)
 (*          with the token ABSENT for a removed/cleared cell that a bulk    *)
 (*          load would otherwise still cover.                               *)
+(*   wr     = DOMAIN m, kept as a set of its own only because TLC tests      *)
+(*          membership in a set much faster than in the domain of a function *)
+(*   cols   the property keys that have a column (ColumnStore::names: a      *)
+(*          column is created by the first write of its key and never        *)
+(*          dropped; clear_row and get_property_keys range over it).         *)
 (* m never holds ABSENT for a cell no bulk load covers (normal form, so     *)
 (* that equal maps are equal states).                                       *)
 (*                                                                          *)
@@ -41,8 +46,8 @@
 (***************************************************************************)
 EXTENDS Naturals, Sequences, FiniteSets, TLC
 
-VARIABLES m, fills
-cvars == <<m, fills>>
+VARIABLES m, wr, fills, cols
+cvars == <<m, wr, fills, cols>>
 
 ABSENT == "ABSENT"
 NULL == "null"
@@ -64,72 +69,78 @@ CoveredBy(fs, r, k) == {i \in DOMAIN fs : Covers(fs[i], r, k)}
 MaxOf(S) == CHOOSE x \in S : \A y \in S : y <= x
 
 \* the map
-CellOf(mm, fs, r, k) ==
-    IF <<r, k>> \in DOMAIN mm THEN mm[<<r, k>>]
+CellOf(mm, ww, fs, r, k) ==
+    IF <<r, k>> \in ww THEN mm[<<r, k>>]
     ELSE LET hits == CoveredBy(fs, r, k)
          IN  IF hits = {} THEN ABSENT ELSE Val(fs[MaxOf(hits)].kind, r)
-Cell(r, k) == CellOf(m, fills, r, k)
+Cell(r, k) == CellOf(m, wr, fills, r, k)
 
-KnownKeys == {p[2] : p \in DOMAIN m} \cup {fills[i].key : i \in DOMAIN fills}
+KnownKeys == cols
 
-CInit == m = <<>> /\ fills = <<>>
+CInit == m = <<>> /\ wr = {} /\ fills = <<>> /\ cols = {}
 
 \* m with cell p set to token v (ABSENT = erase), kept in normal form
-Write(mm, fs, p, v) ==
-    IF v = ABSENT /\ CoveredBy(fs, p[1], p[2]) = {}
-    THEN [q \in DOMAIN mm \ {p} |-> mm[q]]
-    ELSE [q \in DOMAIN mm \cup {p} |-> IF q = p THEN v ELSE mm[q]]
+Erases(fs, p, v) == v = ABSENT /\ CoveredBy(fs, p[1], p[2]) = {}
+Write(mm, ww, fs, p, v) ==
+    IF Erases(fs, p, v)
+    THEN (IF p \in ww THEN [q \in ww \ {p} |-> mm[q]] ELSE mm)
+    ELSE IF p \in ww THEN [mm EXCEPT ![p] = v] ELSE (p :> v) @@ mm
+WriteDom(ww, fs, p, v) == IF Erases(fs, p, v) THEN ww \ {p} ELSE ww \cup {p}
 
 \* ---- ColumnStore::set_property(row, key, value) ----
 Set(r, k, v) ==
     /\ v # ABSENT
-    /\ m' = Write(m, fills, <<r, k>>, v)
+    /\ m' = Write(m, wr, fills, <<r, k>>, v)
+    /\ wr' = WriteDom(wr, fills, <<r, k>>, v)
+    /\ cols' = cols \cup {k}
     /\ UNCHANGED fills
 
 \* ---- ColumnStore::remove_property(row, key) ----
 Remove(r, k) ==
-    /\ m' = Write(m, fills, <<r, k>>, ABSENT)
-    /\ UNCHANGED fills
+    /\ m' = Write(m, wr, fills, <<r, k>>, ABSENT)
+    /\ wr' = WriteDom(wr, fills, <<r, k>>, ABSENT)
+    /\ UNCHANGED <<fills, cols>>
 
 \* ---- ColumnStore::clear_row(row): every key of the row ----
 ClearRow(r) ==
     /\ LET covered == {k \in KnownKeys : CoveredBy(fills, r, k) # {}}
-           dom == {p \in DOMAIN m : p[1] # r} \cup {<<r, k>> : k \in covered}
-       IN  m' = [p \in dom |-> IF p[1] = r THEN ABSENT ELSE m[p]]
-    /\ UNCHANGED fills
+           dom == {p \in wr : p[1] # r} \cup {<<r, k>> : k \in covered}
+       IN  m' = [p \in dom |-> IF p[1] = r THEN ABSENT ELSE m[p]] /\ wr' = dom
+    /\ UNCHANGED <<fills, cols>>
 
 \* ---- the loader: for j in 0..n-1: set_property(lo + j*step, key, Val(kind, row)) ----
 Fill(k, lo, n, step, kind) ==
     /\ n >= 1 /\ step >= 1 /\ kind \in Kinds
     /\ LET f == [key |-> k, lo |-> lo, n |-> n, step |-> step, kind |-> kind]
        IN  /\ fills' = Append(fills, f)
-           /\ m' = [p \in {q \in DOMAIN m : ~Covers(f, q[1], q[2])} |-> m[p]]
+           /\ cols' = cols \cup {k}
+           /\ wr' = {q \in wr : ~Covers(f, q[1], q[2])}
+           /\ m' = [p \in wr' |-> m[p]]
 
 \* ---- what the pinned history of this file did before #594 (self-test only):
 \* ---- remove_property did not exist, the column kept its copy
-LegacyRemove(r, k) == UNCHANGED <<m, fills>>
+LegacyRemove(r, k) == UNCHANGED <<m, wr, fills, cols>>
 
 \* ---- read views (explicit-state versions are used by the trace specification on the
 \* ---- successor state) ----
 \* get_property: the last value set, null if never set / removed / cleared
-GetOf(mm, fs, r, k) == LET c == CellOf(mm, fs, r, k) IN IF c = ABSENT THEN NULL ELSE c
-Get(r, k) == GetOf(m, fills, r, k)
+GetOf(mm, ww, fs, r, k) == LET c == CellOf(mm, ww, fs, r, k) IN IF c = ABSENT THEN NULL ELSE c
+Get(r, k) == GetOf(m, wr, fills, r, k)
 
-KnownKeysOf(mm, fs) == {p[2] : p \in DOMAIN mm} \cup {fs[i].key : i \in DOMAIN fs}
-HoldsOf(mm, fs, r, k) == CellOf(mm, fs, r, k) \notin {ABSENT, NULL}  \* certainly "holds a value"
-WrittenOf(mm, fs, r, k) == CellOf(mm, fs, r, k) # ABSENT             \* a value or an explicit null
-Holds(r, k) == HoldsOf(m, fills, r, k)
-Written(r, k) == WrittenOf(m, fills, r, k)
+HoldsOf(mm, ww, fs, r, k) == CellOf(mm, ww, fs, r, k) \notin {ABSENT, NULL}  \* certainly "holds a value"
+WrittenOf(mm, ww, fs, r, k) == CellOf(mm, ww, fs, r, k) # ABSENT             \* a value or an explicit null
+Holds(r, k) == HoldsOf(m, wr, fills, r, k)
+Written(r, k) == WrittenOf(m, wr, fills, r, k)
 ToSet(s) == {s[i] : i \in DOMAIN s}
 
 \* get_property_keys(row) returned the sequence ks
-KeysOKOf(mm, fs, r, ks) ==
+KeysOKOf(mm, ww, fs, cs, r, ks) ==
     /\ Cardinality(ToSet(ks)) = Len(ks)                                        \* each key once
-    /\ \A k \in ToSet(ks) : WrittenOf(mm, fs, r, k)                            \* not removed / cleared / never set
-    /\ \A k \in KnownKeysOf(mm, fs) : HoldsOf(mm, fs, r, k) => k \in ToSet(ks)  \* every key holding a value
-KeysOK(r, ks) == KeysOKOf(m, fills, r, ks)
+    /\ \A k \in ToSet(ks) : WrittenOf(mm, ww, fs, r, k)                            \* not removed / cleared / never set
+    /\ \A k \in cs : HoldsOf(mm, ww, fs, r, k) => k \in ToSet(ks)  \* every key holding a value
+KeysOK(r, ks) == KeysOKOf(m, wr, fills, cols, r, ks)
 
 TypeOK ==
-    /\ \A p \in DOMAIN m : p[1] \in Nat
-    /\ \A p \in DOMAIN m : m[p] = ABSENT => CoveredBy(fills, p[1], p[2]) # {}
+    /\ wr = DOMAIN m
+    /\ \A p \in wr : m[p] = ABSENT => CoveredBy(fills, p[1], p[2]) # {}
 =============================================================================
